@@ -128,12 +128,7 @@ func depExtChild(r *engine.Run, rule string) {
 		if f == nil {
 			continue
 		}
-		var nodeP ssa.Value
-		for _, p := range f.Params {
-			if p.Name() == "node" {
-				nodeP = p
-			}
-		}
+		nodeP := paramRole(f, "node")
 		arm := typeArms(f, nodeP)["FullNode"]
 		if arm == nil {
 			r.Anchor(rule, fmt.Errorf("unresolved anchor: *FullNode arm of %s", fn(f)))
@@ -147,12 +142,7 @@ func depExtChild(r *engine.Run, rule string) {
 			if c, ok := k.(*ssa.Const); ok && c.IsNil() {
 				continue // error return
 			}
-			good := false
-			if ex, ok := k.(*ssa.Extract); ok {
-				if c, ok := ex.Tuple.(*ssa.Call); ok && staticCalleeIs(c, pkgUtil, "MerklePatriciaTrie", "insertNode") && valIsNode(c.Call.Args[2], "FullNode") {
-					good = true
-				}
-			}
+			good := keyOfBranch(k, 0)
 			n++
 			if !r.Check(good, rule, fn(f)+"|*FullNode arm returns a branch", r.P.Pos(ret.Pos()), "the arm returns the key of a *FullNode handed to insertNode", "an insert into a branch returns something that is not provably a branch: an extension updated through insert could end up over a non-branch child") {
 				branchReturns = false
@@ -520,4 +510,39 @@ func domLift(r *engine.Run, rule string) {
 	if n < 2 {
 		r.Anchor(rule, fmt.Errorf("unresolved anchor: %d calls of liftOnlyChild found", n))
 	}
+}
+
+// keyOfBranch: k is the key result of insertNode applied to a *FullNode, or of a
+// trie method (an extracted arm) all of whose non-error returns are.
+func keyOfBranch(k ssa.Value, depth int) bool {
+	ex, ok := k.(*ssa.Extract)
+	if !ok || depth > 2 {
+		return false
+	}
+	c, ok := ex.Tuple.(*ssa.Call)
+	if !ok {
+		return false
+	}
+	if staticCalleeIs(c, pkgUtil, "MerklePatriciaTrie", "insertNode") {
+		return ex.Index == 1 && valIsNode(c.Call.Args[2], "FullNode")
+	}
+	g := c.Call.StaticCallee()
+	if g == nil || recvNamed(g) != "MerklePatriciaTrie" || len(g.Blocks) == 0 || g.Signature.Results().Len() != 3 || ex.Index != 1 {
+		return false
+	}
+	any := false
+	for _, ret := range engine.Returns(g) {
+		if len(ret.Results) != 3 {
+			continue
+		}
+		kk := resultValue(ret, 1)
+		if cst, ok := kk.(*ssa.Const); ok && cst.IsNil() {
+			continue // error return
+		}
+		if !keyOfBranch(kk, depth+1) {
+			return false
+		}
+		any = true
+	}
+	return any
 }
